@@ -1,5 +1,6 @@
 SPECIFICATION Spec
 CONSTANTS
+  Ablate = {}
   Ids = {0, 1, 2, 3}
   MaxLen = 3
   MaxDepth = 8
